@@ -312,6 +312,46 @@ theorem prepareSync_touches_only_changed {hash : Bytes → Nat} {debug : Bool} {
     · rw [f7, hB.disk_meta]
       exact metaRedo_frame hash ds res.cells _ b hnot
 
+/-- recovery touches nothing foreign either: a page stored in the old table that the changeset does not name keeps its
+bucket page and its meta byte through redo of the WAL -/
+theorem prepareSync_redo_touches_only_changed {hash : Bytes → Nat} {debug : Bool} {S : St} {T : Wal.Table} {seqn : Nat}
+    {ds : List Dirty} {b0 : Builder} {res : Res} (hB : Before hash S T) (hC : ChangesOK hash S T ds)
+    (hs : seqn < 2 ^ 32) (h : prepareSync hash debug S seqn ds b0 = .ok res) :
+    ∃ U, recover hash seqn T res.wal.asSlice.toArray = .ok U ∧
+      ∀ q b, find (hashN hash) (viewOf S.mm T.pages) q = some b → (∀ d ∈ ds, pidN d.pid ≠ q) →
+        U.pages[b]? = T.pages[b]? ∧ U.meta[b]? = T.meta[b]? := by
+  obtain ⟨U, h1, _, h3, _, h5, _⟩ := prepareSync_redo_vs_writeout hB hC hs h res.ht (List.Perm.refl _)
+  refine ⟨U, h1, ?_⟩
+  intro q b hb hq
+  obtain ⟨t1, t2⟩ := (prepareSync_touches_only_changed hB hC h).2 q b hb hq
+  obtain ⟨a1, _, _, _, _, _, _, a8⟩ := prepareSync_abstraction hB hC h res.ht (List.Perm.refl _)
+  obtain ⟨_, _, _, _, f4, _⟩ := prepareSync_facts hB hC h
+  refine ⟨?_, ?_⟩
+  · rw [h5 b, (a8 q hq).2 b hb]
+    intro hmem
+    obtain ⟨x, hx, rfl⟩ := List.mem_map.1 hmem
+    apply t1 (dataOffset S.mm.buckets + x.1, x.2.page) _ rfl
+    apply f4.mem_iff.2
+    unfold htCanon
+    exact List.mem_append_left _ (List.mem_map.2 ⟨x, hx, rfl⟩)
+  · rw [h3, a1, t2, hB.disk_meta]
+
+/-! ## C03: the blob -/
+
+/-- the WAL blob of `prepare_sync`: the encoding of one entry per page of the changeset (a clear entry with the bucket
+of a cleared page; an update entry with page id, diff, the slots the diff names, the elided-children bits and the bucket
+of any other page), a whole number of pages, which the reader returns as exactly that sequence number and those entries -/
+theorem prepareSync_wal_blob {hash : Bytes → Nat} {debug : Bool} {S : St} {T : Wal.Table} {seqn : Nat}
+    {ds : List Dirty} {b0 : Builder} {res : Res} (hB : Before hash S T) (hC : ChangesOK hash S T ds)
+    (hs : seqn < 2 ^ 32) (h : prepareSync hash debug S seqn ds b0 = .ok res) :
+    res.wal.asSlice = encode seqn (entriesOf ds res.cells) ∧ res.wal.asSlice.length % PAGE_SIZE = 0 ∧
+    res.cells.length = ds.length ∧
+    ∃ r, readAll res.wal.asSlice.toArray = .ok r ∧ r.seqn = seqn ∧ r.entries = entriesOf ds res.cells ∧ r.ending = .ok () := by
+  obtain ⟨_, _, _, _, _, f5, f6, _, _, _, _, _, _, _, _, _, f16, _⟩ := prepareSync_facts hB hC h
+  refine ⟨f5, by rw [f5]; exact Builder.encode_length_mod _ _, f16, ?_⟩
+  rw [f5]
+  exact readAll_encode seqn hs _ f6
+
 /-! ## C19: the occupancy counter -/
 
 theorem applyDelta_diff {occ o : Nat} (h1 : occ < 2 ^ 64) (h2 : o < 2 ^ 64) :
